@@ -15,6 +15,8 @@ from healsparse import HealSparseMap  # noqa: E402
 from healsparse.packedBoolArray import _PackedBoolArray  # noqa: E402
 
 import enc  # noqa: E402
+
+VARIANTS_APPLIED = [0]      # legacy / foreign file variants actually applied (evidence)
 from enc import DTYPES, enc_cells, enc_nats, enc_ints, enc_bits, split_list, dec_val, dec_dy, parse_args  # noqa: E402
 
 assert os.path.realpath(healsparse.__file__).startswith(os.path.realpath(REPO)), healsparse.__file__
@@ -610,7 +612,7 @@ class Real(PackedOps, RandOps):
             with afits.open(path, mode='update') as hdul:
                 if 'PIXTYPE' in hdul[1].header and 'MOCVERS' in hdul[1].header:
                     del hdul[1].header['PIXTYPE']
-                    self.variants_applied = getattr(self, 'variants_applied', 0) + 1
+                    VARIANTS_APPLIED[0] += 1
         with afits.open(path) as hdul:
             u = np.array(hdul[1].data['UNIQ'], dtype=np.int64)
         return enc_nats(u)
@@ -678,7 +680,7 @@ class Real(PackedOps, RandOps):
             with afits.open(path, mode='update') as hdul:
                 if 'SENTINEL' in hdul[1].header:
                     del hdul[1].header['SENTINEL']
-                    self.variants_applied = getattr(self, 'variants_applied', 0) + 1
+                    VARIANTS_APPLIED[0] += 1
         return 'ok'
 
     def op_read(self, pos, kv):
@@ -816,11 +818,11 @@ class Real(PackedOps, RandOps):
                 tbl = tbl.copy()
                 tbl['PIXEL'] = hpg.nest_to_ring(hdr['NSIDE'], np.array(tbl['PIXEL'], dtype=np.int64))
                 hdr['ORDERING'] = 'RING'
-                self.variants_applied = getattr(self, 'variants_applied', 0) + 1
+                VARIANTS_APPLIED[0] += 1
             if 'nobad' in var and 'BAD_DATA' in hdr and m.dtype.kind == 'f' and m._sentinel == hpg.UNSEEN:
                 del hdr['BAD_DATA']
                 applied = True
-                self.variants_applied = getattr(self, 'variants_applied', 0) + 1
+                VARIANTS_APPLIED[0] += 1
             if applied:
                 hdu = afits.BinTableHDU(tbl, header=hdr)
                 hdu.writeto(path, overwrite=True)
